@@ -252,6 +252,9 @@ def replay_paths(sub, chunk):
     import logging
     ui.ui_factory = ui.SilentUIFactory()
     logging.getLogger("brz").setLevel(logging.CRITICAL)       # converters and config chatter on stderr
+    # a conversion that never ends may also never stop allocating: fail in this worker, not under the kernel's OOM killer
+    import resource
+    resource.setrlimit(resource.RLIMIT_AS, (6 << 30, 6 << 30))
     for k, (path, states) in enumerate(chunk):
         base = os.path.join(sub.workdir, "site%d" % k)
         os.mkdir(base)
@@ -284,10 +287,10 @@ def replay_one(sub, base, path, states):
         name, arg = m.group(1), (m.group(2) or "").strip('"')
         if name not in ("Reconfigure", "Upgrade", "UpgradeShared"):
             sub.machinery("unknown action " + act)
-        # a call the model says never returns gets 15 s, any other 240 s (then it is reported as diverging)
+        # a call the model says never returns gets 15 s, any other 120 s (then it is reported as diverging)
         signal.signal(signal.SIGALRM, _alarm)
         unspecified = name != "Reconfigure" and not l0["pure"]
-        signal.alarm(15 if st1["last"] == "diverges" else (60 if unspecified else 240))
+        signal.alarm(15 if st1["last"] == "diverges" else (60 if unspecified else 120))
         try:
             if name == "Reconfigure":
                 site.reconfigure(arg)
@@ -298,7 +301,7 @@ def replay_one(sub, base, path, states):
             rout, exc = "ok", ""
         except Exception as e:
             exc = type(e).__name__
-            rout = "already" if exc in ALREADY else ("diverges" if isinstance(e, Hang) else "refused")
+            rout = "already" if exc in ALREADY else ("diverges" if isinstance(e, (Hang, MemoryError)) else "refused")
         finally:
             signal.alarm(0)
         log.append([name, arg, rout, exc])
